@@ -181,12 +181,12 @@ def level1(c, binp, q):
     for b in full:
         for s in SIGS:
             k += 1
-            runs.add(b, s, "fanout", k % 3)
+            runs.add(b, s, "fanout", k % 4)
         k += 1
         if q or k % 2 == 0:
-            runs.add(b, SIGS[k % 4], "router", k % 3)
+            runs.add(b, SIGS[k % 4], "router", k % 4)
         if q or k % 2 == 1:
-            runs.add(b, SIGS[(k + 1) % 4], "routesub", (k + 1) % 3)
+            runs.add(b, SIGS[(k + 1) % 4], "routesub", (k + 1) % 4)
     nred = nfull + 1
     for fam in ("progs", "fails"):
         red = generate(c, nred, fam)
@@ -195,16 +195,16 @@ def level1(c, binp, q):
         for b in red:
             if b["n"] == nred:
                 k += 1
-                runs.add(b, SIGS[k % 4], "fanout", k % 3)
+                runs.add(b, SIGS[k % 4], "fanout", (k // 4) % 4)
                 if k % (4 if q else 2) == 0:
-                    runs.add(b, SIGS[(k + 1) % 4], ("router", "routesub")[k % 2], (k + 1) % 3)
+                    runs.add(b, SIGS[(k + 1) % 4], ("router", "routesub")[k % 2], (k + 1) % 4)
     nexh = len(runs.list)
     # --- random larger ones
     for maxn, num in ([(5, 400)] if q else [(5, 6000), (6, 6000), (8, 3000)]):
         sim = generate(c, maxn, "full", simulate=num, seed=c.seed, label="sim%d" % maxn)
         for b in sim:
             k += 1
-            runs.add(b, SIGS[k % 4], ("fanout", "fanout", "router", "routesub")[k % 4], k % 3)
+            runs.add(b, SIGS[k % 4], ("fanout", "fanout", "router", "routesub")[k % 4], (k // 4) % 4)
     c.log("level 1: %d runs (%d bounded-exhaustive, %d simulated)" % (len(runs.list), nexh, len(runs.list) - nexh))
     viols, obs, nl = run_level(c, binp, runs.list, "l1", 4 if q else 8)
     nbad = report(c, viols, runs, "fanout")
